@@ -491,6 +491,13 @@ impl EmitScope {
         }
     }
 
+    fn with_param_offset(&self, param_offset: usize) -> Self {
+        Self {
+            param_offset,
+            ..self.clone()
+        }
+    }
+
     fn at_path(&self, path: String) -> Self {
         Self {
             path,
